@@ -12,6 +12,7 @@ import Cachelito.CDataDriver
 import Cachelito.KeysDriver
 import Cachelito.AttrsDriver
 import Cachelito.RegDriver
+import Cachelito.StatsDriver
 
 open Cachelito Cachelito.Driver Cachelito.Monitors
 
@@ -115,6 +116,7 @@ partial def main (args : List String) : IO UInt32 := do
   | ["keys"] => simpleMode stdin Cachelito.KeysDriver.handleKeysLine
   | ["attrs"] => simpleMode stdin Cachelito.AttrsDriver.handleAttrsLine
   | ["reg"] => simpleMode stdin Cachelito.RegDriver.handleRegLine
+  | ["stats"] => simpleMode stdin Cachelito.StatsDriver.handleStatsLine
   | _ =>
     IO.eprintln "usage: driver core|macro|mem|conc|cdata|keys|attrs|reg < lines"
     pure 2
